@@ -5,6 +5,10 @@ import json, subprocess, os
 TECH = "contract-based deductive verification of the real Go code: VCs generated from go/ssa of /repo (govc), contracts in //@ comment files, obligations discharged by z3 4.8.12 / z3 5.1.0 / cvc5 1.0.3 and an exact polynomial normaliser"
 
 claimed = {
+ "C19": dict(
+   text="Every function of internal/modm (both limb layouts) is verified against a functional contract: reduce, Barrett reduction (with in-function cuts: quotient estimate bounds, q3*L mod 2^264, borrow chain, Barrett bound), Add, Mul, Expand (16/32/64 bytes), ExpandRaw, Contract, the signed radix-16 recoding (digit ranges and exact weighted sum), the bit expansion of the sliding-window recoding, and the vartime comparison/subtraction helpers, for all inputs inside the stated limb bounds. Proof level, no input bound.",
+   note="Trusted: go/ssa, govc, solvers. The second phase of ContractSlidingWindow (digit property) is NOT proved and is carried as an explicit assumption; 32-bit Mul is specified for a reduced first operand (see evidence assumptions); termination not proved.",
+   ref="DESIGN.md §5.2, §6 C19"),
  "C18": dict(
    text="Every function of internal/curve25519 (both limb layouts) is verified against a functional contract for all limb vectors inside its magnitude class: result congruent to the mathematical operation mod 2^255-19, output magnitude class, no unintended wrap (each dropped wrap is a discharged side condition), canonical serialisation for every representation, parsing ignores bit 255, conditional swap exact; inversion and the (p-5)/8 power by exponent tracking. Proof level, no input bound.",
    note="Trusted: go/ssa, govc, the solvers; exponent law for repeated squaring (M0); termination not proved; call sites must establish the magnitude classes (checked where the callers are under contract).",
